@@ -24,6 +24,17 @@ theorem octalToDec_correct (o : List Nat) : posVal 10 (octalToDec o) = posVal 8 
 theorem decToOctal_correct (d : List Nat) : posVal 8 (decToOctal d) = posVal 10 d ∧ ∀ x ∈ decToOctal d, x < 8 :=
   decToOctal_correct' d
 
+/-- octal → decimal → octal and decimal → octal → decimal give back the same number -/
+theorem octal_roundtrip (o : List Nat) : posVal 8 (decToOctal (octalToDec o)) = posVal 8 o := by
+  rw [(decToOctal_correct (octalToDec o)).1, octalToDec_correct]
+theorem decimal_roundtrip (d : List Nat) : posVal 10 (octalToDec (decToOctal d)) = posVal 10 d := by
+  rw [octalToDec_correct, (decToOctal_correct d).1]
+/-- the converted pair always satisfies the predicate's own acceptance test -/
+theorem octalBoth_after_toDec (o : List Nat) : octalBoth o (octalToDec o) = true :=
+  (octalBoth_iff o _).2 (octalToDec_correct o).symm
+theorem octalBoth_after_toOctal (d : List Nat) : octalBoth (decToOctal d) d = true :=
+  (octalBoth_iff _ d).2 (decToOctal_correct d).1
+
 /-- digit generation (`str(n)`, `oct(n)[2:]`) is inverted by positional evaluation, in every base ≥ 2 -/
 theorem valDigits_toDigits (b n : Nat) (hb : 2 ≤ b) : valDigits b (toDigits b n) = n := valDigits_toDigits' b n hb
 
